@@ -19,8 +19,10 @@ def drive(tier, seed, deep, salt, gen, check, shrink=None, classify=None, n_quic
         try:
             bad = check(case)
         except Exception as exc:  # noqa: BLE001
-            if type(exc).__name__ in ("CuckooFilterFullError", "InitializationError"):
-                continue  # a refusal the library is entitled to (full table, rejected sizing) outside the oracle's handling
+            if type(exc).__name__ == "CuckooFilterFullError":
+                continue  # a refusal the library is entitled to (full table) outside the oracle's handling
+            if type(exc).__name__ == "InitializationError" and not case_reloads(case):
+                continue  # rejected sizing in a constructor the oracle does not guard itself
             bad = f"oracle/structure raised {type(exc).__name__}: {exc}"
         if bad:
             if shrink:
@@ -37,6 +39,19 @@ def drive(tier, seed, deep, salt, gen, check, shrink=None, classify=None, n_quic
             if len(findings) >= max_findings:
                 break
     return findings, {"evaluations": evals, "distinct_nontrivial": len(distinct), "samples": [{"search_case": _short(sample)}]}
+
+
+def case_reloads(case):
+    """does the history of this case load a structure back from an export?  An InitializationError there is
+    not a rejected sizing: the export did not load"""
+    ops = case.get("ops") if isinstance(case, dict) else None
+    if not isinstance(ops, (list, tuple)):
+        return False
+    for op in ops:
+        tag = op[0] if isinstance(op, (list, tuple)) and op else op
+        if isinstance(tag, str) and (tag.startswith("reload") or tag in ("reopen", "load")):
+            return True
+    return False
 
 
 def _short(case):
@@ -110,6 +125,14 @@ def geometry_scan(n_max, rates=(0.03, 0.05, 0.01), near=1e-6):
             scanned += stop - n
             n = stop
     return None, scanned, calls
+
+
+def make_twin(ctor):
+    """the independent structure of another geometry; None when that geometry is rejected by the constructor"""
+    try:
+        return ctor()
+    except Exception:  # noqa: BLE001
+        return None
 
 
 def noise_touch(obj, i):
